@@ -12,6 +12,8 @@
 From Coq Require Import ZArith Bool.
 From Flocq Require Import Core IEEE754.Binary IEEE754.Bits IEEE754.BinarySingleNaN.
 
+Local Open Scope Z_scope.
+
 Definition f64 := BinarySingleNaN.binary_float 53 1024.
 
 Definition of_bits (z : Z) : f64 := Binary.B2BSN 53 1024 (b64_of_bits z).
@@ -65,7 +67,4 @@ Definition frac_cmp (a : f64) : comparison :=
 
 (* bit pattern back (for rendering); NaN rendered as the canonical quiet NaN *)
 Definition to_bits (a : f64) : Z :=
-  match a with
-  | B754_nan => 9221120237041090560
-  | _ => bits_of_b64 (Binary.BSN2B 53 1024 (fun _ _ => exist _ (Binary.B754_nan 53 1024 false 1 eq_refl) eq_refl) a)
-  end.
+  bits_of_b64 (Binary.BSN2B 53 1024 (exist _ (Binary.B754_nan 53 1024 false 2251799813685248 eq_refl) eq_refl) a).
